@@ -5,15 +5,34 @@ from rules_ts import Teardown, Borrows, handle_boxes
 from rules_gate import Gate, Counters, Kill, short
 from rules_trace import Verdict, Trace, ClosureCache, Adaptors
 from rules_api import TableOps, AdoptSchema, Purge, Getters, ApiSpec, Forward, FWD_TRAITS, REF_TRAITS
+import rules_struct
+
+
+class Result:
+    def __init__(self, config):
+        self.config = config
+        self.violations = []     # dicts: rule, key, msg, where, entry, path, config
+        self.obligations = set() # (rule, what, fn, bb)
+        self.entries = []
+        self.states = 0
+        self.events = 0
+        self.blocks = 0
+        self.functions = 0
+        self.call_sites = 0
+        self.wall = 0.0
 
 
 def analyse(program):
     P = program
+    t0 = time.time()
+    res = Result(P.config)
     drop = P.rc_drop()
     wdrop = P.weak_drop()
     clone = P.rc_clone()
+    adopt = P.adopt()
+    unadopt = P.unadopt()
     closures = ClosureCache(P)
-    results = []
+    sv = rules_struct.V()
     for fn in P.entries():
         kind = "api"
         if fn is drop:
@@ -22,40 +41,73 @@ def analyse(program):
             kind = "weak_drop"
         elif fn is clone:
             kind = "rc_clone"
-        hb = handle_boxes(P.inlined(fn))
+        g = P.inlined(fn)
+        hb = handle_boxes(g)
         self_box = hb[1][1] if 1 in hb else None
-        rules = [Teardown(kind, self_box), Borrows(), Gate(kind, self_box), Counters(kind, self_box, fn),
-                 Kill(kind, self_box, fn.path), Verdict(closures, fn), Trace(closures, P), Adaptors(closures)]
         name = short(fn.path)
-        boxes = hb
-        rules.append(TableOps())
-        if fn is P.adopt():
-            rules.append(AdoptSchema("adopt", boxes))
-        elif fn is P.unadopt():
-            rules.append(AdoptSchema("unadopt", boxes))
+        rules = [Teardown(kind, self_box), Borrows(), Gate(kind, self_box), Counters(kind, self_box, fn),
+                 Kill(kind, self_box, fn.path), Verdict(closures, fn), Trace(closures, P), Adaptors(closures), TableOps()]
+        if fn is adopt:
+            rules.append(AdoptSchema("adopt", hb))
+        elif fn is unadopt:
+            rules.append(AdoptSchema("unadopt", hb))
         if kind == "rc_drop":
             rules.append(Purge(self_box))
         if name in ("Weak::strong_count", "Weak::weak_count", "Rc::strong_count", "Rc::weak_count"):
             rules.append(Getters(name, self_box))
         if not fn.f.get("impl_trait") and (name.startswith("Rc::") or name.startswith("Weak::")):
-            rules.append(ApiSpec(name, boxes, fn))
+            rules.append(ApiSpec(name, hb, fn))
         isf = fn.f.get("impl_self") or {}
-        if fn.f.get("impl_trait") in FWD_TRAITS or fn.f.get("impl_trait") in REF_TRAITS:
-            if isf.get("adt") == RC:
-                rules.append(Forward(fn, boxes))
+        if (fn.f.get("impl_trait") in FWD_TRAITS or fn.f.get("impl_trait") in REF_TRAITS) and isf.get("adt") == RC:
+            rules.append(Forward(fn, hb))
         eng = P.run(fn, rules)
-        results.append((fn, kind, eng, rules))
-    return results
+        res.entries.append({"entry": name, "path": fn.path, "blocks": len(g.blocks), "states": eng.stats["states"], "events": len(eng.event_index)})
+        res.states += eng.stats["states"]
+        res.events += len(eng.event_index)
+        res.blocks += len(g.blocks)
+        for v in eng.violations.values():
+            v = dict(v)
+            v["config"] = P.config
+            v["entry_short"] = name
+            res.violations.append(v)
+        for (rule, what, b) in eng.obligations:
+            w = eng.where(b)
+            res.obligations.add((rule, what, w["fn"], w["bb"], "%s:%s" % (w["file"], w["line"])))
+        # structural rules that use the interpreter's view of iterators
+        rules_struct.iter1(eng, sv)
+        rules_struct.search_closures(eng, closures, sv)
+        if kind == "rc_drop":
+            rules_struct.iter5(eng, sv)
+    rules_struct.iter4(P, sv)
+    rules_struct.cg1(P, sv)
+    rules_struct.eff4(P, sv)
+    for v in sv.violations.values():
+        v = dict(v)
+        v["config"] = P.config
+        v["entry_short"] = short(v["entry"]) if v.get("entry") else None
+        res.violations.append(v)
+    for (rule, what, where) in sv.obligations:
+        if isinstance(where, tuple) and len(where) == 2 and isinstance(where[1], int) and where[0] in P.facts.fns:
+            g = P.inlined(P.facts.fns[where[0]])
+            p = g.prov[where[1]] if where[1] < len(g.prov) else (where[0], where[1], ())
+            t = g.blocks[where[1]]["term"] if where[1] < len(g.blocks) else {}
+            res.obligations.add((rule, what, p[0], p[1], "%s:%s" % (t.get("file"), t.get("line"))))
+        else:
+            res.obligations.add((rule, what, str(where[0]), str(where[1]), ""))
+    res.functions = len(P.facts.fns)
+    res.call_sites = sum(1 for f in P.facts.fns.values() for b in f.blocks if b["term"]["k"] == "call")
+    res.unresolved = sorted(set(P.inliner.unresolved))
+    res.wall = time.time() - t0
+    return res
 
 
 if __name__ == "__main__":
     import sys
+    from collections import Counter
     P = Program(sys.argv[1] if len(sys.argv) > 1 else "/tmp/w/facts.json")
-    t0 = time.time()
     res = analyse(P)
-    tot = 0
-    for fn, kind, eng, rules in res:
-        tot += eng.stats["states"]
-        for v in eng.violations.values():
-            print("VIOL", v["rule"], v["key"], "|", short(fn.path), "|", v["msg"][:300], "|", v["where"]["fn"].split("::")[-1], v["where"]["line"])
-    print("entries", len(res), "states", tot, "%.1fs" % (time.time() - t0))
+    for v in res.violations:
+        print("VIOL", v["rule"], v["key"], "|", v.get("entry_short"), "|", v["msg"][:300], "|", v["where"]["fn"].split("::")[-1], v["where"].get("line"))
+    c = Counter(o[0] for o in res.obligations)
+    print("obligations", dict(sorted(c.items())))
+    print("entries", len(res.entries), "states", res.states, "%.1fs" % res.wall, "unresolved", res.unresolved)
